@@ -4,7 +4,7 @@
    fullPath only lets such paths through.  Instantiated for the Go layer in
    UfsProofsPath.v. *)
 From Coq Require Import List NArith ZArith Bool Lia.
-From P9 Require Import Base.Res Model.Path Model.HostFS Model.Ufs.
+From P9 Require Import Base.Res Model.Path Model.HostFS Model.Ufs Gen.GenConsts.
 Import ListNotations.
 Open Scope N_scope.
 
@@ -43,6 +43,452 @@ Section Generic.
     destruct (is_dir (sf_ent r)); [|reflexivity]. simpl.
     destruct (E (fr_path (sf_ent r))) as [e ->]. reflexivity.
   Qed.
+
+  (* ---- Remove on the root: refused; the only host call it can make is closing the fid's own file ---- *)
+
+  Lemma remove_root s fid r :
+    u_stuck s = false -> fid_get fid (u_fids s) = Some r -> ua_is_root A (fr_path (sf_ent r)) = true ->
+    snd (step hc A s (OpRemove fid)) = ObErr /\
+    (forall c, In c (u_log (fst (step hc A s (OpRemove fid)))) -> In c (u_log s) \/ exists fd, c = HClose fd).
+  Proof.
+    intros Hs Eg Er. unfold step. rewrite Hs. unfold do_remove. rewrite Eg.
+    unfold ent_clunk. destruct (fr_fd (sf_ent r)) as [fd|].
+    - destruct (call hc s (HClose fd)) as [s1 res] eqn:Ec.
+      destruct (call_spec _ _ _ _ Ec) as (_ & E2 & _). rewrite Er. simpl. split; [reflexivity|].
+      intros c Hc. rewrite E2 in Hc. destruct Hc as [<-|Hc]; [right; eauto|left; exact Hc].
+    - rewrite Er. simpl. split; [reflexivity|]. intros c Hc; left; exact Hc.
+  Qed.
+
+  (* ---- the invariant: internal paths and host paths ---- *)
+
+  Variable Pinv : P -> Prop.          (* what every FileRef.Path satisfies *)
+  Variable Hinv : bstr -> Prop.       (* what every path handed to the host satisfies *)
+  Hypothesis full_ok : forall q hp, ua_fullpath A q = Some hp -> Pinv q /\ Hinv hp.
+  Hypothesis host_ok : forall q, Pinv q -> Hinv (ua_hostpath A q).
+  Hypothesis walk_total : forall q ns, Pinv q -> ua_walk A q ns <> Panic /\ ua_walk A q ns <> Hang.
+  Hypothesis create_total : forall q n, Pinv q -> ua_create A q n <> Panic /\ ua_create A q n <> Hang.
+
+  Definition fid_ok (e : N * sfid) : Prop := Pinv (fr_path (sf_ent (snd e))).
+  Definition call_ok (c : hcall) : Prop := Forall Hinv (hcall_paths c).
+  Definition inv (s : ust) : Prop :=
+    Forall fid_ok (u_fids s) /\ Forall call_ok (u_log s) /\ u_stuck s = false.
+
+  Lemma call_inv s c s1 r : inv s -> call_ok c -> call hc s c = (s1, r) -> inv s1.
+  Proof.
+    intros (Hf & Hl & Hs) Hc E. destruct (call_spec _ _ _ _ E) as (E1 & E2 & E3 & _).
+    unfold inv. rewrite E1, E2, E3. repeat split; auto.
+  Qed.
+
+  Lemma call_nopath_inv s c s1 r : inv s -> hcall_paths c = [] -> call hc s c = (s1, r) -> inv s1.
+  Proof. intros Hi Hp. apply call_inv; auto. unfold call_ok. rewrite Hp. constructor. Qed.
+
+  Lemma call1_ok c p : hcall_paths c = [p] -> Hinv p -> call_ok c.
+  Proof. intros E Hp. unfold call_ok. rewrite E. constructor; auto. Qed.
+
+  Lemma fid_del_ok fid t : Forall fid_ok t -> Forall fid_ok (fid_del (P:=P) fid t).
+  Proof.
+    induction t as [|[k v] t IH]; intros Hf; simpl; [constructor|].
+    inversion Hf; subst. destruct (fid =? k); auto.
+  Qed.
+
+  Lemma fid_set_ok fid v t : Forall fid_ok t -> Pinv (fr_path (sf_ent v)) -> Forall fid_ok (fid_set fid v t).
+  Proof. intros Hf Hv. unfold fid_set. constructor; [exact Hv|apply fid_del_ok; exact Hf]. Qed.
+
+  Lemma nassoc_in {X} fid (t : list (N * X)) r : nassoc fid t = Some r -> In (fid, r) t.
+  Proof.
+    induction t as [|[k v] t IH]; simpl; [discriminate|].
+    destruct (N.eqb_spec fid k) as [->|Hn].
+    - intros E; inversion E; subst. left; reflexivity.
+    - intros E. right. auto.
+  Qed.
+
+  Lemma fid_get_ok s fid r : inv s -> fid_get fid (u_fids s) = Some r -> Pinv (fr_path (sf_ent r)).
+  Proof.
+    intros (Hf & _) E. apply nassoc_in in E. rewrite Forall_forall in Hf. apply (Hf _ E).
+  Qed.
+
+  Lemma get_ref_ok s fid r : inv s -> get_ref s fid = Some r -> Pinv (fr_path (sf_ent r)).
+  Proof. unfold get_ref. destruct (fid =? c_NOFID); [discriminate|]. apply fid_get_ok. Qed.
+
+  Lemma set_fids_inv s t : inv s -> Forall fid_ok t -> inv (set_fids s t).
+  Proof. intros (_ & Hl & Hs) Ht. repeat split; auto. Qed.
+
+  Lemma inv_fids s : inv s -> Forall fid_ok (u_fids s).
+  Proof. intros (Hf & _); exact Hf. Qed.
+
+  Lemma new_ref_inv s p s1 o : inv s -> new_ref hc A s p = (s1, o) ->
+    inv s1 /\ (forall e, o = Some e -> Pinv (fr_path e)).
+  Proof.
+    intros Hi. unfold new_ref. destruct (ua_fullpath A p) as [hp|] eqn:Ef.
+    - destruct (full_ok _ _ Ef) as (Hp & Hh).
+      destruct (call hc s (HStat hp)) as [s' r] eqn:Ec.
+      assert (Hi' : inv s') by (eapply call_inv; eauto; eapply call1_ok; [reflexivity|auto]).
+      destruct r; intros E; inversion E; subst; split; auto; try discriminate.
+      intros e He; inversion He; subst; exact Hp.
+    - intros E; inversion E; subst. split; [auto|discriminate].
+  Qed.
+
+  Lemma ent_clunk_inv s e s1 b : inv s -> ent_clunk hc s e = (s1, b) -> inv s1.
+  Proof.
+    intros Hi. unfold ent_clunk. destruct (fr_fd e) as [fd|].
+    - destruct (call hc s (HClose fd)) as [s' r] eqn:Ec. intros E; inversion E; subst.
+      eapply call_nopath_inv; [| | eassumption]; [assumption | reflexivity].
+    - intros E; inversion E; subst; auto.
+  Qed.
+
+  Lemma ent_opendir_inv s e s1 o : inv s -> Pinv (fr_path e) -> ent_opendir hc A s e = (s1, o) -> inv s1.
+  Proof.
+    intros Hi Hp. unfold ent_opendir. destruct (negb (hi_dir (fr_info e))).
+    - intros E; inversion E; subst; auto.
+    - destruct (call hc s (HReadDir (ua_hostpath A (fr_path e)))) as [s' r] eqn:Ec.
+      assert (Hi' : inv s') by (eapply call_inv; eauto; eapply call1_ok; [reflexivity|auto]).
+      destruct r; intros E; inversion E; subst; auto.
+  Qed.
+
+  Lemma attach_inv s fid : inv s -> inv (fst (do_attach hc A s fid)).
+  Proof.
+    intros Hi. unfold do_attach. destruct (negb (fid_free s fid)); [exact Hi|].
+    destruct (new_ref hc A s (ua_root A)) as [s1 [e|]] eqn:E;
+      destruct (new_ref_inv _ _ _ _ Hi E) as (Hi1 & Hp); simpl; [|exact Hi1].
+    apply set_fids_inv; [exact Hi1|]. apply fid_set_ok; [apply inv_fids; exact Hi1|]. simpl. auto.
+  Qed.
+
+  Lemma walk_inv s fid newfid names : inv s -> inv (fst (do_walk hc A s fid newfid names)).
+  Proof.
+    intros Hi. unfold do_walk. destruct (negb (ua_names_ok A names)); [exact Hi|].
+    destruct (get_ref s fid) as [r|] eqn:Eg; [|exact Hi].
+    pose proof (get_ref_ok _ _ _ Hi Eg) as Hr.
+    destruct (negb (newfid =? fid) && negb (fid_free s newfid)); [exact Hi|].
+    destruct names as [|n0 names'].
+    - destruct (newfid =? fid); [exact Hi|].
+      destruct (new_ref hc A s (fr_path (sf_ent r))) as [s1 [e|]] eqn:E;
+        destruct (new_ref_inv _ _ _ _ Hi E) as (Hi1 & Hp); simpl; [|exact Hi1].
+      apply set_fids_inv; [exact Hi1|]. apply fid_set_ok; [apply inv_fids; exact Hi1|]. simpl. auto.
+    - destruct (negb (is_dir (sf_ent r))); [exact Hi|].
+      destruct (walk_total (fr_path (sf_ent r)) (n0 :: names') Hr) as (Hnp & Hnh).
+      destruct (ua_walk A (fr_path (sf_ent r)) (n0 :: names')) as [q|err| |]; [|exact Hi|congruence|congruence].
+      destruct (new_ref hc A s q) as [s1 [e|]] eqn:E;
+        destruct (new_ref_inv _ _ _ _ Hi E) as (Hi1 & Hp); [|exact Hi1].
+      destruct (newfid =? fid).
+      + destruct (ent_clunk hc s1 (sf_ent r)) as [s2 b] eqn:Ek. simpl.
+        pose proof (ent_clunk_inv _ _ _ _ Hi1 Ek) as Hi2.
+        apply set_fids_inv; [exact Hi2|]. apply fid_set_ok; [apply inv_fids; exact Hi2|]. simpl. auto.
+      + simpl. apply set_fids_inv; [exact Hi1|]. apply fid_set_ok; [apply inv_fids; exact Hi1|]. simpl. auto.
+  Qed.
+
+  Lemma open_inv s fid mode : inv s -> inv (fst (do_open hc A s fid mode)).
+  Proof.
+    intros Hi. unfold do_open.
+    destruct (get_ref s fid) as [r|] eqn:Eg; [|exact Hi].
+    pose proof (get_ref_ok _ _ _ Hi Eg) as Hr.
+    destruct (sf_file r); [|exact Hi|exact Hi].
+    destruct (is_dir (sf_ent r)).
+    - destruct (ent_opendir hc A s (sf_ent r)) as [s1 [l|]] eqn:E;
+        pose proof (ent_opendir_inv _ _ _ _ Hi Hr E) as Hi1; simpl; [|exact Hi1].
+      apply set_fids_inv; [exact Hi1|]. apply fid_set_ok; [apply inv_fids; exact Hi1|]. simpl. auto.
+    - destruct (call hc s (HOpen (ua_hostpath A (fr_path (sf_ent r))) (ua_oflags A mode) 0)) as [s1 res] eqn:Ec.
+      assert (Hi1 : inv s1) by (eapply call_inv; eauto; eapply call1_ok; [reflexivity|auto]).
+      destruct res; simpl; try exact Hi1.
+      apply set_fids_inv; [exact Hi1|]. apply fid_set_ok; [apply inv_fids; exact Hi1|]. simpl. auto.
+  Qed.
+
+  Lemma create_switch_inv s hp perm mode s1 cr : inv s -> Hinv hp ->
+    create_switch hc A s hp perm mode = (s1, cr) -> inv s1.
+  Proof.
+    intros Hi Hh. unfold create_switch.
+    destruct (negb (N.land perm c_DMDIR =? 0)).
+    - destruct (call hc s (HMkdir hp (ua_perm A perm))) as [s' r] eqn:Ec. intros E; inversion E; subst.
+      eapply call_inv; eauto. eapply call1_ok; [reflexivity|auto].
+    - destruct (negb (N.land perm c_DMSYMLINK =? 0)); [intros E; inversion E; subst; auto|].
+      destruct (negb (N.land perm c_DMNAMEDPIPE =? 0)); [intros E; inversion E; subst; auto|].
+      destruct (negb (N.land perm c_DMDEVICE =? 0)); [intros E; inversion E; subst; auto|].
+      destruct (call hc s (HOpen hp (with_creat (ua_oflags A mode)) (ua_perm A perm))) as [s' r] eqn:Ec.
+      intros E; inversion E; subst.
+      eapply call_inv; eauto. eapply call1_ok; [reflexivity|auto].
+  Qed.
+
+  Lemma create_inv s fid name perm mode : inv s -> inv (fst (do_create hc A s fid name perm mode)).
+  Proof.
+    intros Hi. unfold do_create. destruct (negb (ua_create_ok A name)); [exact Hi|].
+    destruct (get_ref s fid) as [r|] eqn:Eg; [|exact Hi].
+    pose proof (get_ref_ok _ _ _ Hi Eg) as Hr.
+    destruct (negb (is_dir (sf_ent r))); [exact Hi|].
+    destruct (create_total (fr_path (sf_ent r)) name Hr) as (Hnp & Hnh).
+    destruct (ua_create A (fr_path (sf_ent r)) name) as [q|err| |]; [|exact Hi|congruence|congruence].
+    destruct (ua_fullpath A q) as [hp|] eqn:Ef; [|exact Hi].
+    destruct (full_ok _ _ Ef) as (Hq & Hh).
+    destruct (create_switch hc A s hp perm mode) as [s1 cr] eqn:Ecs.
+    pose proof (create_switch_inv _ _ _ _ _ _ Hi Hh Ecs) as Hi1.
+    assert (Hmain : forall fdo,
+      inv (fst (match new_ref hc A s1 q with
+                | (s2, None) =>
+                    match fdo with
+                    | Some fd => let '(s3, _) := call hc s2 (HClose fd) in (s3, ObErr)
+                    | None => (s2, ObErr)
+                    end
+                | (s2, Some e0) =>
+                    let e := {| fr_path := fr_path e0; fr_info := fr_info e0; fr_fd := fdo |} in
+                    if is_dir e then
+                      match ent_opendir hc A s2 e with
+                      | (s3, Some l) =>
+                          (set_fids s3 (fid_set fid {| sf_ent := e; sf_file := SFdir l; sf_mode := mode |} (u_fids s3)), ObQid true)
+                      | (s3, None) =>
+                          let '(s4, _) := ent_clunk hc s3 e in
+                          (set_fids s4 (fid_del fid (u_fids s4)), ObErr)
+                      end
+                    else
+                      (set_fids s2 (fid_set fid {| sf_ent := e; sf_file := SFfile fdo; sf_mode := mode |} (u_fids s2)), ObQid false)
+                end))).
+    { intros fdo.
+      destruct (new_ref hc A s1 q) as [s2 [e0|]] eqn:En;
+        destruct (new_ref_inv _ _ _ _ Hi1 En) as (Hi2 & Hp).
+      - cbv zeta.
+        set (e := {| fr_path := fr_path e0; fr_info := fr_info e0; fr_fd := fdo |}).
+        assert (He : Pinv (fr_path e)) by (simpl; auto).
+        destruct (is_dir e).
+        + destruct (ent_opendir hc A s2 e) as [s3 [l|]] eqn:Eo;
+            pose proof (ent_opendir_inv _ _ _ _ Hi2 He Eo) as Hi3.
+          * simpl. apply set_fids_inv; [exact Hi3|]. apply fid_set_ok; [apply inv_fids; exact Hi3|]. simpl. auto.
+          * destruct (ent_clunk hc s3 e) as [s4 b] eqn:Ek. simpl.
+            pose proof (ent_clunk_inv _ _ _ _ Hi3 Ek) as Hi4.
+            apply set_fids_inv; [exact Hi4|]. apply fid_del_ok. apply inv_fids; exact Hi4.
+        + simpl. apply set_fids_inv; [exact Hi2|]. apply fid_set_ok; [apply inv_fids; exact Hi2|]. simpl. auto.
+      - destruct fdo as [fd|]; [|exact Hi2].
+        destruct (call hc s2 (HClose fd)) as [s3 r3] eqn:Ec. simpl.
+        eapply call_nopath_inv; [| | eassumption]; [assumption | reflexivity]. }
+    destruct cr as [| |fd]; [exact Hi1 | exact (Hmain None) | exact (Hmain (Some fd))].
+  Qed.
+
+  Lemma read_inv s fid count off : inv s -> inv (fst (do_read hc s fid count off)).
+  Proof.
+    intros Hi. unfold do_read. destruct (get_ref s fid) as [r|]; [|exact Hi].
+    destruct (sf_file r) as [|rest|[fd|]]; try exact Hi.
+    - destruct (N.land (sf_mode r) c_OEXEC =? c_OWRITE); [exact Hi|].
+      destruct (call hc s (HPread fd count off)) as [s1 res] eqn:Ec. simpl.
+      eapply call_nopath_inv; [| | eassumption]; [assumption | reflexivity].
+    - destruct (N.land (sf_mode r) c_OEXEC =? c_OWRITE); exact Hi.
+  Qed.
+
+  Lemma write_inv s fid data off : inv s -> inv (fst (do_write hc s fid data off)).
+  Proof.
+    intros Hi. unfold do_write. destruct (get_ref s fid) as [r|]; [|exact Hi].
+    destruct (sf_file r) as [|rest|[fd|]]; try exact Hi;
+      destruct (negb (N.land (sf_mode r) c_OEXEC =? c_OWRITE) && negb (N.land (sf_mode r) c_OEXEC =? c_ORDWR)); try exact Hi.
+    destruct (call hc s (HPwrite fd data off)) as [s1 res] eqn:Ec. simpl.
+    eapply call_nopath_inv; [| | eassumption]; [assumption | reflexivity].
+  Qed.
+
+  Lemma readdir_inv s fid : inv s -> inv (fst (do_readdir s fid)).
+  Proof.
+    intros Hi. unfold do_readdir. destruct (get_ref s fid) as [r|] eqn:Eg; [|exact Hi].
+    pose proof (get_ref_ok _ _ _ Hi Eg) as Hr.
+    destruct (sf_file r); try exact Hi.
+    destruct (N.land (sf_mode r) c_OEXEC =? c_OWRITE); [exact Hi|]. simpl.
+    apply set_fids_inv; [exact Hi|]. apply fid_set_ok; [apply inv_fids; exact Hi|]. simpl. auto.
+  Qed.
+
+  Lemma ent_wstat_inv s e name mode len uid gid s1 e1 ok : inv s -> Pinv (fr_path e) ->
+    ent_wstat hc A s e name mode len uid gid = (s1, e1, ok) -> inv s1 /\ Pinv (fr_path e1).
+  Proof.
+    intros Hi He. unfold ent_wstat.
+    set (hp := ua_hostpath A (fr_path e)).
+    assert (Hh : Hinv hp) by (apply host_ok; auto).
+    (* chmod *)
+    destruct (if mode =? NOCHANGE32 then (s, true)
+              else let '(s', r) := call hc s (HChmod hp (ua_perm A mode)) in
+                   (s', match r with RDone => true | _ => false end)) as [sa ok1] eqn:E1.
+    assert (Hia : inv sa).
+    { destruct (mode =? NOCHANGE32); [inversion E1; subst; auto|].
+      destruct (call hc s (HChmod hp (ua_perm A mode))) as [s' r] eqn:Ec. inversion E1; subst.
+      eapply call_inv; eauto. eapply call1_ok; [reflexivity|auto]. }
+    destruct ok1; simpl; [|intros E; inversion E; subst; auto].
+    (* chown *)
+    destruct (if is_empty uid && is_empty gid then (sa, true)
+              else let '(sa0, ru) := call hc sa (HLookupUser uid) in
+                   match ru with
+                   | RCount u =>
+                       let '(sb, rg) := call hc sa0 (HLookupGroup gid) in
+                       match rg with
+                       | RCount g => let '(sc, r) := call hc sb (HChown hp u g) in
+                                     (sc, match r with RDone => true | _ => false end)
+                       | _ => (sb, false)
+                       end
+                   | _ => (sa0, false)
+                   end) as [sb ok2] eqn:E2.
+    assert (Hib : inv sb).
+    { destruct (is_empty uid && is_empty gid); [inversion E2; subst; auto|].
+      destruct (call hc sa (HLookupUser uid)) as [sa0 ru] eqn:Eu.
+      assert (Hi0 : inv sa0) by (eapply call_nopath_inv; [| | eassumption]; [assumption | reflexivity]).
+      destruct ru; try (inversion E2; subst; exact Hi0).
+      destruct (call hc sa0 (HLookupGroup gid)) as [sb0 rg] eqn:Eg.
+      assert (Hi00 : inv sb0) by (eapply call_nopath_inv; [| | eassumption]; [assumption | reflexivity]).
+      destruct rg; try (inversion E2; subst; exact Hi00).
+      destruct (call hc sb0 (HChown hp n n0)) as [sc r] eqn:Ec. inversion E2; subst.
+      eapply call_inv; eauto. eapply call1_ok; [reflexivity|auto]. }
+    destruct ok2; simpl; [|intros E; inversion E; subst; auto].
+    (* rename *)
+    destruct (if is_empty name then (sb, e, true)
+              else match ua_rename A (fr_path e) name with
+                   | None => (sb, e, false)
+                   | Some rel =>
+                       match ua_fullpath A rel with
+                       | None => (sb, e, false)
+                       | Some newhp =>
+                           let '(s', r) := call hc sb (HRename hp newhp) in
+                           match r with
+                           | RDone => (s', {| fr_path := rel; fr_info := fr_info e; fr_fd := fr_fd e |}, true)
+                           | _ => (s', e, false)
+                           end
+                       end
+                   end) as [[sc e3] ok3] eqn:E3.
+    assert (Hic : inv sc /\ Pinv (fr_path e3)).
+    { destruct (is_empty name); [inversion E3; subst; auto|].
+      destruct (ua_rename A (fr_path e) name) as [rel|]; [|inversion E3; subst; auto].
+      destruct (ua_fullpath A rel) as [newhp|] eqn:Ef; [|inversion E3; subst; auto].
+      destruct (full_ok _ _ Ef) as (Hrel & Hnew).
+      destruct (call hc sb (HRename hp newhp)) as [s' r] eqn:Ec.
+      assert (Hi' : inv s').
+      { eapply call_inv; eauto. unfold call_ok. simpl. constructor; [auto|constructor; [auto|constructor]]. }
+      destruct r; inversion E3; subst; auto. }
+    destruct Hic as (Hic & He3).
+    destruct ok3; simpl; [|intros E; inversion E; subst; auto].
+    (* truncate *)
+    destruct (len =? NOCHANGE64); [intros E; inversion E; subst; auto|].
+    destruct (call hc sc (HTruncate (ua_hostpath A (fr_path e3)) (int64_of len))) as [sd r] eqn:Ec.
+    intros E; inversion E; subst. split; [|auto].
+    eapply call_inv; eauto. eapply call1_ok; [reflexivity|auto].
+  Qed.
+
+  Lemma wstat_inv s fid name mode len uid gid : inv s -> inv (fst (do_wstat hc A s fid name mode len uid gid)).
+  Proof.
+    intros Hi. unfold do_wstat. destruct (get_ref s fid) as [r|] eqn:Eg; [|exact Hi].
+    pose proof (get_ref_ok _ _ _ Hi Eg) as Hr.
+    destruct (ent_wstat hc A s (sf_ent r) name mode len uid gid) as [[s1 e] ok] eqn:E.
+    destruct (ent_wstat_inv _ _ _ _ _ _ _ _ _ _ Hi Hr E) as (Hi1 & He). simpl.
+    apply set_fids_inv; [exact Hi1|]. apply fid_set_ok; [apply inv_fids; exact Hi1|]. simpl. auto.
+  Qed.
+
+  Lemma clunk_inv s fid : inv s -> inv (fst (do_clunk hc s fid)).
+  Proof.
+    intros Hi. unfold do_clunk. destruct (fid_get fid (u_fids s)) as [r|]; [|exact Hi].
+    destruct (ent_clunk hc s (sf_ent r)) as [s1 b] eqn:Ek. simpl.
+    pose proof (ent_clunk_inv _ _ _ _ Hi Ek) as Hi1.
+    apply set_fids_inv; [exact Hi1|]. apply fid_del_ok. apply inv_fids; exact Hi1.
+  Qed.
+
+  Lemma remove_inv s fid : inv s -> inv (fst (do_remove hc A s fid)).
+  Proof.
+    intros Hi. unfold do_remove. destruct (fid_get fid (u_fids s)) as [r|] eqn:Eg; [|exact Hi].
+    pose proof (fid_get_ok _ _ _ Hi Eg) as Hr.
+    destruct (ent_clunk hc s (sf_ent r)) as [s1 b] eqn:Ek.
+    pose proof (ent_clunk_inv _ _ _ _ Hi Ek) as Hi1.
+    assert (Hi2 : inv (set_fids s1 (fid_del fid (u_fids s1)))).
+    { apply set_fids_inv; [exact Hi1|]. apply fid_del_ok. apply inv_fids; exact Hi1. }
+    destruct (ua_is_root A (fr_path (sf_ent r))); [exact Hi2|].
+    destruct (call hc (set_fids s1 (fid_del fid (u_fids s1))) (HRemove (ua_hostpath A (fr_path (sf_ent r))))) as [s3 res] eqn:Ec.
+    simpl. eapply call_inv; eauto. eapply call1_ok; [reflexivity|auto].
+  Qed.
+
+  Theorem step_inv s o : inv s -> inv (fst (step hc A s o)).
+  Proof.
+    intros Hi. unfold step. destruct (u_stuck s); [exact Hi|].
+    destruct o.
+    - apply attach_inv; auto.
+    - apply walk_inv; auto.
+    - apply open_inv; auto.
+    - apply create_inv; auto.
+    - apply read_inv; auto.
+    - apply write_inv; auto.
+    - exact (match get_ref s fid as g return inv (fst (match g with None => (s, ObErr) | Some r => (s, ObInfo (fr_info (sf_ent r))) end)) with Some _ => Hi | None => Hi end).
+    - apply wstat_inv; auto.
+    - apply clunk_inv; auto.
+    - apply remove_inv; auto.
+    - apply readdir_inv; auto.
+  Qed.
+
+  Theorem run_inv ops : forall s, inv s -> inv (fst (run hc A s ops)).
+  Proof.
+    induction ops as [|o ops IH]; intros s Hi; simpl; [exact Hi|].
+    destruct (step hc A s o) as [s1 ob] eqn:E.
+    assert (Hi1 : inv s1) by (change s1 with (fst (s1, ob)); rewrite <- E; apply step_inv; auto).
+    specialize (IH s1 Hi1). destruct (run hc A s1 ops) as [s2 obs]. exact IH.
+  Qed.
+
+  Lemma init_inv h : inv (init h).
+  Proof. repeat split; constructor. Qed.
+
+  (* no operation of a run panics or hangs *)
+  Theorem run_no_panic ops : forall s, inv s -> ~ In ObPanic (snd (run hc A s ops)) /\ ~ In ObHang (snd (run hc A s ops)).
+  Proof.
+    induction ops as [|o ops IH]; intros s Hi; simpl; [split; intros []|].
+    destruct (step hc A s o) as [s1 ob] eqn:E.
+    assert (Hi1 : inv s1) by (change s1 with (fst (s1, ob)); rewrite <- E; apply step_inv; auto).
+    specialize (IH s1 Hi1). destruct (run hc A s1 ops) as [s2 obs]. simpl in *.
+    assert (Hob : ob <> ObPanic /\ ob <> ObHang).
+    { destruct Hi as (Hf & Hl & Hs). unfold step in E. rewrite Hs in E.
+      assert (Hi : inv s) by (repeat split; auto).
+      destruct o; simpl in E.
+      - unfold do_attach in E. destruct (negb (fid_free s fid)); [inversion E; split; discriminate|].
+        destruct (new_ref hc A s (ua_root A)) as [sx [e|]]; inversion E; split; discriminate.
+      - unfold do_walk in E. destruct (negb (ua_names_ok A names)); [inversion E; split; discriminate|].
+        destruct (get_ref s fid) as [r|] eqn:Eg; [|inversion E; split; discriminate].
+        pose proof (get_ref_ok _ _ _ Hi Eg) as Hr.
+        destruct (negb (newfid =? fid) && negb (fid_free s newfid)); [inversion E; split; discriminate|].
+        destruct names as [|n0 names'].
+        + destruct (newfid =? fid); [inversion E; split; discriminate|].
+          destruct (new_ref hc A s (fr_path (sf_ent r))) as [sx [e|]]; inversion E; split; discriminate.
+        + destruct (negb (is_dir (sf_ent r))); [inversion E; split; discriminate|].
+          destruct (walk_total (fr_path (sf_ent r)) (n0 :: names') Hr) as (Hnp & Hnh).
+          destruct (ua_walk A (fr_path (sf_ent r)) (n0 :: names')) as [q|err| |]; [|inversion E; split; discriminate|congruence|congruence].
+          destruct (new_ref hc A s q) as [sx [e|]]; [|inversion E; split; discriminate].
+          destruct (newfid =? fid); [destruct (ent_clunk hc sx (sf_ent r))|]; inversion E; split; discriminate.
+      - unfold do_open in E. destruct (get_ref s fid) as [r|]; [|inversion E; split; discriminate].
+        destruct (sf_file r); try (inversion E; split; discriminate).
+        destruct (is_dir (sf_ent r)).
+        + destruct (ent_opendir hc A s (sf_ent r)) as [sx [l|]]; inversion E; split; discriminate.
+        + destruct (call hc s _) as [sx res]. destruct res; inversion E; split; discriminate.
+      - unfold do_create in E. destruct (negb (ua_create_ok A name)); [inversion E; split; discriminate|].
+        destruct (get_ref s fid) as [r|] eqn:Eg; [|inversion E; split; discriminate].
+        pose proof (get_ref_ok _ _ _ Hi Eg) as Hr.
+        destruct (negb (is_dir (sf_ent r))); [inversion E; split; discriminate|].
+        destruct (create_total (fr_path (sf_ent r)) name Hr) as (Hnp & Hnh).
+        destruct (ua_create A (fr_path (sf_ent r)) name) as [q|err| |]; [|inversion E; split; discriminate|congruence|congruence].
+        destruct (ua_fullpath A q) as [hp|]; [|inversion E; split; discriminate].
+        destruct (create_switch hc A s hp perm mode) as [sx cr].
+        destruct cr; [inversion E; split; discriminate| |];
+          (destruct (new_ref hc A sx q) as [sy [e0|]];
+           [ cbv zeta in E;
+             match type of E with context [if ?b then _ else _] => destruct b end;
+             [ match type of E with context [ent_opendir ?a ?b ?c ?d] => destruct (ent_opendir a b c d) as [sz [l|]] end;
+               [ inversion E; split; discriminate
+               | match type of E with context [ent_clunk ?a ?b ?c] => destruct (ent_clunk a b c) end; inversion E; split; discriminate ]
+             | inversion E; split; discriminate ]
+           | try (destruct (call hc sy _)); inversion E; split; discriminate ]).
+      - unfold do_read in E. destruct (get_ref s fid) as [r|]; [|inversion E; split; discriminate].
+        destruct (sf_file r) as [|rest|[fd|]]; try (inversion E; split; discriminate);
+          destruct (N.land (sf_mode r) c_OEXEC =? c_OWRITE); try (inversion E; split; discriminate).
+        destruct (call hc s _) as [sx res]. destruct res; inversion E; split; discriminate.
+      - unfold do_write in E. destruct (get_ref s fid) as [r|]; [|inversion E; split; discriminate].
+        destruct (sf_file r) as [|rest|[fd|]]; try (inversion E; split; discriminate);
+          destruct (negb (N.land (sf_mode r) c_OEXEC =? c_OWRITE) && negb (N.land (sf_mode r) c_OEXEC =? c_ORDWR)); try (inversion E; split; discriminate).
+        destruct (call hc s _) as [sx res]. destruct res; inversion E; split; discriminate.
+      - unfold do_stat in E. destruct (get_ref s fid); inversion E; split; discriminate.
+      - unfold do_wstat in E. destruct (get_ref s fid) as [r|]; [|inversion E; split; discriminate].
+        destruct (ent_wstat hc A s (sf_ent r) name mode len uid gid) as [[sx e] ok].
+        destruct ok; inversion E; split; discriminate.
+      - unfold do_clunk in E. destruct (fid_get fid (u_fids s)) as [r|]; [|inversion E; split; discriminate].
+        destruct (ent_clunk hc s (sf_ent r)) as [sx b]. destruct b; inversion E; split; discriminate.
+      - unfold do_remove in E. destruct (fid_get fid (u_fids s)) as [r|]; [|inversion E; split; discriminate].
+        destruct (ent_clunk hc s (sf_ent r)) as [sx b].
+        destruct (ua_is_root A (fr_path (sf_ent r))); [inversion E; split; discriminate|].
+        destruct (call hc _ _) as [sy res]. destruct res; inversion E; split; discriminate.
+      - unfold do_readdir in E. destruct (get_ref s fid) as [r|]; [|inversion E; split; discriminate].
+        destruct (sf_file r); try (inversion E; split; discriminate).
+        destruct (N.land (sf_mode r) c_OEXEC =? c_OWRITE); inversion E; split; discriminate. }
+    destruct IH as (IH1 & IH2). destruct Hob as (Hp & Hh).
+    split; intros [Heq|Hin]; auto.
+  Qed.
+
 End Generic.
 
 (* the Go layer's filters *)
